@@ -521,3 +521,23 @@ Proof.
   apply documented_regex_agrees in E as (c & se & Hc & _ & _ & e0 & H0).
   rewrite Hc in H. destruct H as (i & e & Hg & Hi). rewrite Hg in H0. injection H0 as -> _. lia.
 Qed.
+
+(* Regex::captures is LEFTMOST for every regex of the fragment: no start position before the
+   reported one has a match. *)
+Theorem search_from_leftmost r : forall t idx c i e j,
+  search_from r t idx = Some c -> get_cap c 0 = Some (i, e) -> idx <= j < i ->
+  m r (fun s => Some (set_cap (rcaps s) 0 (j, ridx s))) (mkR (skipn_N (j - idx) t) j []) = None.
+Proof.
+  induction t as [|c0 t IH]; intros idx c i e j H Hg Hj; cbn [search_from] in H.
+  - destruct (m r _ _) as [c1|] eqn:E; [|discriminate]. injection H as <-.
+    apply m_result in E as (s1 & E). injection E as <-.
+    rewrite get_set_cap0 in Hg. injection Hg as <- _. lia.
+  - destruct (m r _ _) as [c1|] eqn:E.
+    + injection H as <-. apply m_result in E as (s1 & E). injection E as <-.
+      rewrite get_set_cap0 in Hg. injection Hg as <- _. lia.
+    + destruct (N.eq_dec j idx) as [->|Hne].
+      * rewrite N.sub_diag. cbn [skipn_N]. change (0 =? 0) with true. cbv iota. exact E.
+      * cbn [skipn_N]. destruct (N.eqb_spec (j - idx) 0) as [H0|_]; [lia|].
+        replace (j - idx - 1) with (j - (idx + 1)) by lia.
+        eapply IH; [exact H|exact Hg|lia].
+Qed.
